@@ -57,6 +57,14 @@ func main() {
 	if *dump != "" {
 		fn := p.Func(*dump)
 		if fn == nil {
+			fn = p.Cache.Func(*dump)
+		}
+		if fn == nil {
+			for _, f := range p.Cache.Funcs {
+				if strings.Contains(p.Cache.Name(f), *dump) {
+					fmt.Println("[cache] " + p.Cache.Name(f))
+				}
+			}
 			for _, f := range p.Funcs {
 				if strings.Contains(p.Name(f), *dump) {
 					fmt.Println(p.Name(f))
@@ -79,8 +87,8 @@ func main() {
 		if len(ids) == 1 {
 			run.Start = t0
 		}
-		run.Packages = len(p.Mod)
-		run.FuncsTotal = len(p.Funcs)
+		run.Packages = len(p.Mod) + len(p.Cache.Mod)
+		run.FuncsTotal = len(p.Funcs) + len(p.Cache.Funcs)
 		run.NotDecided = pr.NotDecided
 		run.Extra["load_and_ssa_build_s"] = loadS
 		run.Assumptions = rules.Assumptions
